@@ -16,6 +16,8 @@ void d_fill(void *p, size_t nbytes, int k, int i, int v, int salt);
 void L_hex(int idx, const void *p, size_t nbytes);
 void L_u64(int idx, uint64_t x);
 void L_len(int idx, size_t n);
+double d_f64(int k, int i, int v, int salt);   /* exactly representable in float too */
+void L_f64(int idx, double x);
 #ifdef __cplusplus
 }
 #endif
